@@ -379,7 +379,8 @@ def h_resubmit(shapes=("chain3", "fork3"), bss=(2,), flagsets=None, incomplete=T
         the submission with results erased (rows of the first run pruned from the result files) AND no way forward.  A way
         forward = the documented commands (try-submit-jobs while incomplete, resubmit-jobs once complete) lead to a complete
         submission with one successful entry per job.  Not fault positions (recognised by the effect sequence, not by function
-        names): everything from the round's first scheduler command on - the submission round (C11's subject; fail-stop refusal
+        names): everything from the creation of the round marker (or the round's first scheduler
+        command) on - the submission round (C11's subject; fail-stop refusal
         accepted there) and the final role release that follows it."""
         import errno
         import sys
@@ -388,6 +389,9 @@ def h_resubmit(shapes=("chain3", "fork3"), bss=(2,), flagsets=None, incomplete=T
 
         kind = fault_kinds[ex.choice("fault", len(fault_kinds))]
         st = dict(injected=False, idx=0, script=None)
+        from jade.hpc.hpc_submitter import HpcSubmitter
+
+        MARKER = "/" + str(HpcSubmitter.LOCK_FILENAME)  # the round marker: its creation is the round's first act
         STATE_FILES = ("cluster_config.json", "config_version.txt", "job_status.json", "job_status_version.txt")
         w.unlock_observer = None  # C09's consistency clauses are stated for fault-free runs
 
@@ -397,7 +401,7 @@ def h_resubmit(shapes=("chain3", "fork3"), bss=(2,), flagsets=None, incomplete=T
         def hook(w_, k, detail):
             if _DUMP and in_cmd(w_):
                 st.setdefault("seq", []).append("%s:%s" % (k, os.path.basename(str(detail.get("path", "")))[:40]))
-            if in_cmd(w_) and k in ("squeue", "sbatch", "exec"):
+            if in_cmd(w_) and (k in ("squeue", "sbatch", "exec") or str(detail.get("path", "")).endswith(MARKER)):
                 # the submission round has begun (its first act is the status query): an error raised inside a round is C11's
                 # subject, where fail-stop refusal is accepted; the final role release follows the round, so it is no fault
                 # position either (no implementation can release the role when the release itself fails)
